@@ -44,6 +44,8 @@ fn main() {
             "litrules" => replay_one(&suites::message::rules_suite(), &v["input"], &mut model),
             "rxrules-blob" => replay_one(&suites::message::rxrules_suite(true), &v["input"], &mut model),
             "rxrules-msg" => replay_one(&suites::message::rxrules_suite(false), &v["input"], &mut model),
+            "rxapply-blob" => replay_one(&suites::message::rxapply_suite(true), &v["input"], &mut model),
+            "rxapply-msg" => replay_one(&suites::message::rxapply_suite(false), &v["input"], &mut model),
             "applylit" => replay_one(&suites::message::apply_suite(), &v["input"], &mut model),
             "template" => replay_one(&suites::message::template_suite(), &v["input"], &mut model),
             "timestamp" => replay_one(&suites::identity::timestamp_suite(), &v["input"], &mut model),
